@@ -26,7 +26,18 @@ def gen_job(r):
     site.add("http://site.example/to-asset", status=302, location="/img/a.png")
     site.add("http://site.example/to-page", status=301, location="/p1")
     site.pages["http://site.example/p0"]["assets"] += r.sample(["/to-asset", "/p1", "/to-page"], r.randrange(0, 3))
-    seeds = [r.choice(pages + ["http://site.example/", "http://site.example/img/a.png", "http://site.example/to-asset", "http://site.example/p1",
+    # a page several of whose requisites answer with redirects: to something seen only as an asset, to pages crawled before
+    site.add("http://site.example/to-asset2", status=302, location="/up/c.gif")
+    site.add("http://site.example/to-page2", status=301, location="/p2")
+    multi = ["/to-asset", "/to-page", "/to-asset2", "/to-page2"]
+    r.shuffle(multi)
+    site.add("http://site.example/multi", assets=multi[: r.randrange(2, 5)], outlinks=[])
+    if r.random() < 0.25:
+        site.pages["http://site.example/p0"]["assets"] += ["/img/a.png", "/up/c.gif"]
+        return site, ["http://site.example/p0", r.choice(["http://site.example/p1", "HTTP://SITE.example/p1", "http://site.example:80/p1"]),
+                      "http://site.example/p2", "http://site.example/multi", "http://site.example/p1"]
+    seeds = [r.choice(pages + ["http://site.example/", "http://site.example/img/a.png", "http://site.example/multi", "HTTP://SITE.example/p1",
+                               "http://site.example:80/p2", "http://site.example/./p3", "http://site.example/p1", "http://site.example/p2", "http://site.example/to-asset", "http://site.example/p1",
                                "http://site.example/q?a=1&b=2&c=3", "http://site.example/q?c=3&a=1&b=2", "http://site.example/img/a.png?y=2&x=1",
                                "http://site.example/api/data.json", "http://site.example/red/1"]) for _ in range(r.randrange(2, 7))]
     return site, seeds
@@ -49,7 +60,10 @@ def judge_pre(ctx, ref, pre, rp):
     sent = list(pre["sent"] or [])
     for n, par in nodes:
         typ = "asset" if (par is not None and par["st"] == "GotChildren") else "seed"
-        c = n["canon"]
+        # the canonical URL of the node as the normaliser gives it on a fresh object (not what the node says of itself)
+        c = ((pre.get("oracle") or {}).get(n["id"]) or {}).get("canon") or n["canon"]
+        if c != n["canon"]:
+            ctx.count("node-canon-differs-from-normaliser")
         ctx.count("checked:" + typ)
         if ref.hq:
             # the k-th value sent belongs to the k-th checked node; the store reported it as seen iff it had recorded that value
